@@ -78,6 +78,18 @@ def generate_yaml(seed, tier, st):
     orr = st["ops"]
     order2 = list(range(n))
     orr.shuffle(order2)
+    # the second session may ask for logs (computation log, performance graph / tables:
+    # tracing on, files written to the working directory) - and the working directory
+    # may refuse them (F6 for the runner: a directory of that name is in the way)
+    logs = {}
+    if chance(orr, 0.4):
+        logs = {k: True for k in ("verbose", "performance_graph", "performance_tables") if chance(orr, 0.5)}
+        if logs.get("verbose"):
+            # as the command line does: a depth is always given (its default is sys.maxsize)
+            logs["max_depth"] = pick(orr, [9223372036854775807, 1, 3])
+            logs["aggregate"] = chance(orr, 0.3)
+        if (logs.get("performance_graph") or logs.get("performance_tables")) and chance(orr, 0.5):
+            logs["blocked"] = True
     return {
         "format": 1,
         "property": "C20",
@@ -86,6 +98,7 @@ def generate_yaml(seed, tier, st):
         "world": world,
         "tests": tests,
         "orders": [list(range(n)), order2],
+        "run_options": [{}, logs],
         "ops": [],
     }
 
@@ -386,8 +399,12 @@ def quiet_fds():
             os.close(fd)
 
 
-def run_file(tbs, items, path):
-    """One run_tests call; verdicts by position from the junit report."""
+LOG_FILES = ("performance_graph.html", "performance_table.csv", "aggregated_performance_table.csv")
+
+
+def run_file(tbs, items, path, options=None):
+    """One run_tests call, in a working directory of its own; verdicts by position
+    from the junit report."""
     from openfisca_core.tools.test_runner import run_tests
 
     from ..ctx import CTX
@@ -398,11 +415,22 @@ def run_file(tbs, items, path):
     junit = path + ".xml"
     old = os.environ.get("PYTEST_ADDOPTS")
     os.environ["PYTEST_ADDOPTS"] = f"-p no:cacheprovider -q --junitxml={junit} -o junit_family=xunit1"
+    options = dict(options or {})
+    blocked = options.pop("blocked", False)
+    cwd = os.getcwd()
+    work = path + ".cwd"
+    os.makedirs(work)
+    if blocked:
+        for name in LOG_FILES:
+            os.makedirs(os.path.join(work, name))
     try:
+        os.chdir(work)
         with quiet_fds(), warnings.catch_warnings():
             warnings.simplefilter("ignore")
-            run_tests(tbs, path, {})
+            run_tests(tbs, path, options)
     finally:
+        os.chdir(cwd)
+        shutil.rmtree(work, ignore_errors=True)
         if old is None:
             os.environ.pop("PYTEST_ADDOPTS", None)
         else:
@@ -464,7 +492,11 @@ def run_yaml(scn) -> Result:
         for oi, order in enumerate(scn["orders"]):
             seq = [by_name[scn["tests"][i]["name"]] for i in order if i < len(scn["tests"]) and scn["tests"][i]["name"] in by_name]
             items = [copy.deepcopy(b[0]) for b in seq]
-            verdicts = run_file(base, items, os.path.join(SCRATCH, f"tests_{oi}.yaml"))
+            opts = (scn.get("run_options") or [{}, {}])[oi] if oi < len(scn.get("run_options") or []) else {}
+            blocked = bool(opts.get("blocked"))
+            for k in opts:
+                res.count(f"probe:runner_option_{k}")
+            verdicts = run_file(base, items, os.path.join(SCRATCH, f"tests_{oi}.yaml"), opts)
             res.count("steps", len(items))
             if len(verdicts) != len(items):
                 res.violate("C20.verdict", oi, what="the runner did not report one verdict per test", tests=len(items), verdicts=len(verdicts))
@@ -476,6 +508,15 @@ def run_yaml(scn) -> Result:
                 for d in b[2]:
                     res.count(f"probe:yaml_{d['type']}_{d['layout']}")
                 passed = verdict == "pass"
+                if blocked:
+                    # the log cannot be written: a test may fail for that reason alone,
+                    # but a test whose outputs are off must not pass
+                    res.count("fault:log_file_cannot_be_written")
+                    if passed and not want[name]:
+                        res.violate("C20.verdict", oi, test=name, expected_verdict="fail", verdict=verdict, message=msg,
+                                    what="a test whose outputs are beyond the margin passes when its log file cannot be written", options=opts)
+                        break
+                    continue
                 if passed != want[name]:
                     worst = next((d for d in b[2] if not d["ok"]), b[2][0])
                     res.violate("C20.verdict", oi, test=name, expected_verdict="pass" if want[name] else "fail", verdict=verdict, message=msg,
